@@ -1,5 +1,6 @@
 """Zorg's event and command handlers live here."""
 
+from dataclasses import replace
 import datetime as dt
 import hashlib
 import json
@@ -250,6 +251,7 @@ def reindex_database(
             _check_for_modified_notes(cmd.zettel_dir, zorg_page, old_zorg_page)
             _LOGGER.debug("Adding zorg file", file=zorg_page_name)
             session.repo.add_file(zorg_page)
+            _mark_all_but_last_event(zorg_page)
             zorg_pages.append(zorg_page)
             session.commit()
 
@@ -300,7 +302,25 @@ def update_note_modify_dates(
         add_thing_to_first_line=_add_or_update_modify_date,
         get_thing=lambda _: today_short_date,
         log_message="Updating modify dates",
+        record_hash=not event.more_rewrites_pending,
     )
+
+
+def _mark_all_but_last_event(zorg_page: Page) -> None:
+    """Tells events that are NOT the last rewrite of their page about that.
+
+    A page whose notes need both new modify dates and new ZIDs is rewritten
+    twice. It only matches the DB (and may be recorded as indexed) after the
+    second rewrite.
+    """
+    zorg_page.events[:-1] = [
+        (
+            replace(event, more_rewrites_pending=True)
+            if isinstance(event, events.ModifiedZorgNotesEvent)
+            else event
+        )
+        for event in zorg_page.events[:-1]
+    ]
 
 
 def _forget_pages_with_pending_events(
@@ -482,6 +502,7 @@ def _update_zo_file(
     add_thing_to_first_line: _AddThingToFirstLine,
     get_thing: _GetThing,
     log_message: str,
+    record_hash: bool = True,
 ) -> None:
     zlines = zo_path.read_text().split("\n")
     for note in notes_to_update:
@@ -503,6 +524,9 @@ def _update_zo_file(
         notes_to_update=len(notes_to_update),
     )
     c.atomic_write_text(zo_path, "\n".join(zlines))
+
+    if not record_hash:
+        return
 
     # Only THIS file has been rewritten (and matches the DB again). Any other
     # file that was edited in the meantime still needs to be reindexed, so its
